@@ -45,7 +45,12 @@ def add_sample(cov, s):
 def execute_run(pid, P, r, binp, seed, tier, work, findings, breaks, cov):
     n = r["n"][1] if tier == "thorough" else r["n"][0]
     mode = r["mode"]
-    rc, out, ops, gout = vlib.run_harness(binp, mode, seed, n, tier, work, extra_env=r.get("env"),
+    xenv = dict(r.get("env") or {})
+    tlog_path = None
+    if mode == "session" and pid in REPLAY_RELEVANT:
+        tlog_path = os.path.join(work, "session.tlog")
+        xenv["VERIF_TLOG_FILE"] = tlog_path
+    rc, out, ops, gout = vlib.run_harness(binp, mode, seed, n, tier, work, extra_env=xenv,
                                          timeout=r.get("timeout", 1500))
     rec = dict(mode=mode, n=n, rc=rc)
     cov["runs"].append(rec)
@@ -82,6 +87,8 @@ def execute_run(pid, P, r, binp, seed, tier, work, findings, breaks, cov):
         lel = vlib.read_lines(lout)
     judge = JUDGES[r["judge"]]
     judge(pid, r, opl, gol, lel, metal, findings, breaks, cov, rec, seed)
+    if tlog_path:
+        replay_session_traces(pid, tlog_path, findings, breaks, cov, rec, seed, r.get("env", {}))
 
 
 def replay(pid, P, binp, path, work, findings, cov):
@@ -268,6 +275,100 @@ def judge_mon(pid, r, opl, gol, lel, metal, findings, breaks, cov, rec, seed):
     rec["scheduling_steps"] = steps
     cov["distinct_nontrivial"] += len(distinct)
     cov["traces_validated_against_impl"] = cov.get("traces_validated_against_impl", 0) + n
+
+
+# which model actions / assertions a property's theorems are about: a replay divergence at one of them is a
+# correspondence break for that property (DESIGN §4.4); "*" = any divergence
+REPLAY_RELEVANT = {
+    "C01": r"cNew|cSel2Res|rDeliver|rLookup|rDecode|rDeliverSlot|rBegSend|rSpawn|hReturn|hEnc|hHand|hSel|wRecv|\?cpc|\?capp|\?hpc|\?seq",
+    "C03": r"cEnc|nEnc|hEnc|rNfEnc|cCancelEnc|wRecv|wNotify|wWrite|wDone|\?wlog",
+    "C07": r"rDeliver|rFatal|rNf|rLookup|kEnter|kStep|kWake|kStart|rCloseDone|\?stop|\?err|\?kpc",
+    "C08": r"ctxCancel|cHandCtx|cSel1Ctx|cSel2Ctx|cCancel|cPoll|aDone|rCanSend|rCanStop|\?hctx|nHandCtx|nSelCtx|\?cpc|\?npc",
+    "C09": r"rBegSend|rBegStop|rCanSend|hEndSend|hEndStop|tStop|\?hctx",
+    "C10": r"cHandDone|cSel1Stop|cSel2Stop|cCancelDone|aDone|nHandDone|nSelStop|hHandDone|hHandCtx|hSelCtx|rNfHandDone|rBegStop|rCanStop|hEndStop|wStop|tStop|k[A-Z]|rCloseDone|cBegin|nBegin|\?cpc|\?npc|\?kpc",
+    "C11": r"cAdd|cRm|\?pend|wStop|tStop|hEndSend|hEndStop|rCloseDone|aDone|k[A-Z]|\?kpc",
+    "C12": r"rLookup|rDecode|rDeliverSlot|cRm|cAdd|cSel2|\?pend",
+    "C13": r"cNew|wRecv|wNotify|wWrite|wDone|\?seq|\?wlog",
+    "C20": r"cFin|cCancelRec|nFin|hFin|rNfSel",
+}
+
+
+def replay_session_traces(pid, tlog_path, findings, breaks, cov, rec, seed, mode_env):
+    """Site-level replay of every session of this run through Model/Transport.step."""
+    import replay as rp
+    try:
+        text = open(tlog_path).read()
+    except OSError:
+        breaks.append(dict(what="the session run produced no site-level trace"))
+        return
+    sessions = rp.parse_tlog(text)
+    ops, meta = [], []
+    stat = dict(sessions=len(sessions), endpoint_runs=0, ok=0, unsupported=0, unmapped=0, stuck=0, differs=0, model_steps=0)
+    unsup = {}
+    bad = []
+    for idx, fl, lines in sessions:
+        try:
+            items, _ = rp.translate(lines)
+        except rp.Unsupported as e:
+            stat["unsupported"] += 1
+            unsup[str(e)[:80]] = unsup.get(str(e)[:80], 0) + 1
+            continue
+        except rp.Unmapped as e:
+            stat["unmapped"] += 1
+            bad.append((idx, fl, -1, "unmapped: " + str(e), ""))
+            continue
+        except Exception as e:  # a trace the translator cannot read at all
+            stat["unmapped"] += 1
+            bad.append((idx, fl, -1, "translator failed: %r" % (e,), ""))
+            continue
+        for ep, body in items.items():
+            ops.append("replay " + body)
+            meta.append((idx, fl, ep))
+    if ops:
+        d = os.path.dirname(tlog_path)
+        opf, outf = os.path.join(d, "replay.ops"), os.path.join(d, "replay.lean.out")
+        open(opf, "w").write("\n".join(ops) + "\n")
+        orc, oerr = vlib.run_oracle(opf, outf)
+        if orc != 0:
+            breaks.append(dict(what="oracle failed on the replay", detail=oerr[-2000:]))
+            return
+        res = vlib.read_lines(outf)
+        for (idx, fl, ep), line, op in zip(meta, res, ops):
+            stat["endpoint_runs"] += 1
+            if line.startswith("ok"):
+                stat["ok"] += 1
+                m = re.search(r"steps=(\d+)", line)
+                if m:
+                    stat["model_steps"] += int(m.group(1))
+                continue
+            stat["stuck" if line.startswith("stuck") else "differs"] += 1
+            bad.append((idx, fl, ep, line, op))
+    rec["replay"] = stat
+    if unsup:
+        rec["replay_unsupported"] = unsup
+    cov["replay_endpoint_runs_ok"] = cov.get("replay_endpoint_runs_ok", 0) + stat["ok"]
+    cov["replay_model_steps"] = cov.get("replay_model_steps", 0) + stat["model_steps"]
+    rel = re.compile(REPLAY_RELEVANT.get(pid, "."))
+    mine, others = [], 0
+    for idx, fl, ep, line, op in bad:
+        m = re.search(r"`([^`]*)`", line)
+        tok = (m.group(1).split(" ")[0] if m else "")
+        if ep == -1 or not tok or rel.match(tok):
+            mine.append((idx, fl, ep, line, op))
+        else:
+            others += 1
+    rec["replay_divergences_elsewhere"] = others
+    for idx, fl, ep, line, op in mine[:3]:
+        its = op[7:].split(" ; ")
+        m = re.search(r"at (\d+)", line)
+        k = int(m.group(1)) if m else len(its)
+        breaks.append(dict(what=f"site-level replay: a controlled execution of the real code is not a run of Model/Transport "
+                                f"(session {idx}, flavour {fl}, endpoint {ep}): {line[:400]}",
+                           correspondence="Model/Replay.replay (T.step) vs harness mode session",
+                           replay=dict(mode="session", seed=seed, session=idx, flavour=fl, endpoint=ep, env=mode_env,
+                                       last_actions=its[max(0, k - 40):k + 1])))
+    if len(mine) > 3:
+        breaks.append(dict(what=f"site-level replay: {len(mine) - 3} further divergences of the same run"))
 
 
 JUDGES = {"dec": judge_dec, "eq": judge_eq, "mon": judge_mon}
